@@ -121,6 +121,37 @@ def _closed_form(prim, Z, E, f, n_red):
     return pred
 
 
+SEARCH = {}
+
+
+def _search_symmetric_born(run, c, line):
+    """the model/implementation comparison of the Born-charge symmetrisation broke: look for a failing input of the property itself.
+    Zm = the model's symmetrised charges (symmetric under the crystal's operations by born_symmetrize_projection); with Zm and eps set,
+    D(Gamma; n) - D(Gamma) must be (4 pi/V) f (n.Zm_j)(n.Zm_j')/(n.eps.n)/sqrt(m m') for both methods."""
+    try:
+        Zm = np.array(U.parse_rats(line, c["shape"]), dtype="double")
+        common.switch_variant(c["variant"])
+        for method in ("wang", "gonze"):
+            ph = gen.make_phonopy(c["cell"], c["smat"], pmat="P")
+            ph.force_constants = c["fc"].copy()
+            plain = _run_dm(ph, np.zeros(3))
+            ph.nac_params = {"born": Zm.copy(), "dielectric": c["eps"].copy(), "factor": c["factor"], "method": method}
+            got = _run_dm(ph, np.zeros(3), c["n"]) - plain
+            pred = _closed_form(ph.primitive, Zm, c["eps"], _phys_factor(ph.primitive, c["factor"]), c["n"])
+            sc = max(float(np.abs(pred).max()), float(np.abs(plain).max()), 1e-300)
+            run.count("failing-input search: symmetric Born charges through the public API (%s)" % method, section="oracle")
+            if np.abs(got - pred).max() > 1e-8 * sc:
+                run.violation("Phonopy.run_qpoints(nac_q_direction)", "gamma-limit-symmetric-born-%s" % method,
+                              "with Born charges that are symmetric under the crystal's operations set, D(Gamma; n) - D(Gamma) differs from (4pi/V) f (n.Z)(n.Z)/(n.eps.n)/sqrt(mm') "
+                              "of the charges that were set by %.3g (scale %.3g)" % (np.abs(got - pred).max(), sc),
+                              dict(c["info"], method=method, born=Zm.tolist(), dielectric=c["eps"].tolist(), direction=c["n"].tolist()))
+                return
+    except Exception as exc:  # noqa: BLE001
+        run.count("failing-input search for symmetric Born charges could not run: %s" % type(exc).__name__, section="oracle")
+    finally:
+        common.switch_variant("omp")
+
+
 def _run_dm(ph, qv, direction=None):
     ph.run_qpoints([qv], nac_q_direction=direction, with_dynamical_matrices=True)
     return np.array(ph.get_qpoints_dict()["dynamical_matrices"][0])
@@ -335,6 +366,10 @@ def main(run):
         meta.append(("group-certificate", info0, lambda line: None if line == "true" else "groupWf = %s on the implementation's operations" % line))
         lines.append("symborns %d %d %s %s %s %s" % (npa, len(R), U.flat(R), U.flat(Ri), U.ints(perm), U.flat(born0)))
         meta.append(("symmetrize-borns", info0, lambda line, b=born_s: _cmp(U.parse_rats(line, b.shape), b)))
+        # failing-input search, run only when the comparison above breaks: Born charges that ARE symmetric (the model's group
+        # average, a proved projection) set through the public API must give the closed form of the statement with those charges
+        SEARCH[id(info0)] = dict(cell=cell, smat=smat, fc=np.array(fc_used).copy(), eps=eps_s.copy(), shape=born_s.shape, n=n1.copy(), factor=factor,
+                                 variant=variant, info={k: v for k, v in info0.items() if k not in ("born", "dielectric")})
         lines.append("symeps %d %s %s %s" % (len(Rp), U.flat(Rp), U.flat(Rpi), U.flat(eps0)))
         meta.append(("symmetrize-epsilon", info0, lambda line, e=eps_s: _cmp(U.parse_rats(line, (1, 3, 3))[0] if line != "bad-op" else None, e)))
         b2, e2 = symmetrize_borns_and_epsilon(born_s, eps_s, prim)
@@ -533,6 +568,8 @@ def main(run):
         err = chk(line)
         if err is not None:
             run.broke("correspondence", "%s: %s" % (kind, err), {k: v for k, v in info.items() if k not in ("born", "dielectric")})
+            if kind == "symmetrize-borns" and id(info) in SEARCH and line != "bad-op":
+                _search_symmetric_born(run, SEARCH[id(info)], line)
     run.cov["correspondence"]["compared"] = ncmp
 
 
